@@ -232,13 +232,18 @@ func isAligned(fromDomain, authDomain string, mode AlignmentMode) bool {
 
 func ExtractFromDomain(hdr textproto.Header) (string, error) {
 	// TODO(GH emersion/go-message#75): Add textproto.Header.Count method.
-	var firstFrom string
+	var (
+		firstFrom string
+		seen      bool
+	)
 	for fields := hdr.FieldsByKey("From"); fields.Next(); {
-		if firstFrom == "" {
-			firstFrom = fields.Value()
-		} else {
+		// The value cannot be used to tell whether a field was already seen:
+		// the first field may be empty.
+		if seen {
 			return "", errors.New("dmarc: multiple From header fields are not allowed")
 		}
+		seen = true
+		firstFrom = fields.Value()
 	}
 	if firstFrom == "" {
 		return "", errors.New("dmarc: missing From header field")
